@@ -22,7 +22,7 @@ namespace OdlModel.OpAlgebra
 /-- The right operand of an overload. -/
 inductive Operand (K : Type)
   | op (a : Impl K)
-  | scal (s : K)
+  | scal (s : K) (real : Bool)   -- `real` = isinstance(s, numbers.Real)
   | vec (v : VecLit K)
 
 /-- Guard atoms (the only tests the translator accepts). -/
@@ -38,6 +38,8 @@ inductive Guard
   | otherElemFieldIsRange  -- isinstance(other, LinearSpaceElement) and other.space.field == self.range
   | otherEqZero            -- other == 0
   | selfIsLinear           -- self.is_linear
+  | otherIsReal            -- isinstance(other, Real)
+  | and (g h : Guard)      -- g and h
   deriving DecidableEq, Repr
 
 inductive Cls
@@ -125,21 +127,23 @@ variable {K : Type} [Add K] [Mul K] [Neg K] [Sub K] [Div K] [OfNat K 0] [OfNat K
 def Guard.eval (self : Impl K) (other : Operand K) : Guard → Bool
   | .otherIsOperator => match other with | .op _ => true | _ => false
   | .otherIsFunctional => match other with | .op b => b.isFn | _ => false
-  | .otherIsNumber => match other with | .scal _ => true | _ => false
+  | .otherIsNumber => match other with | .scal _ _ => true | _ => false
   | .otherInRange => match other with
       | .vec v => decide (self.ran = .vec v.n)
-      | .scal _ => decide (self.ran = .fld)
+      | .scal _ _ => decide (self.ran = .fld)
       | .op _ => false
-  | .otherInRangeField => match other with | .scal _ => true | _ => false
+  | .otherInRangeField => match other with | .scal _ _ => true | _ => false
   | .otherInDomain => match other with
       | .vec v => decide (self.dom = .vec v.n)
-      | .scal _ => decide (self.dom = .fld)
+      | .scal _ _ => decide (self.dom = .fld)
       | .op _ => false
-  | .otherInDomainField => match other with | .scal _ => true | _ => false
+  | .otherInDomainField => match other with | .scal _ _ => true | _ => false
   | .otherElemInDomain => match other with | .vec v => decide (self.dom = .vec v.n) | _ => false
   | .otherElemFieldIsRange => match other with | .vec _ => decide (self.ran = .fld) | _ => false
-  | .otherEqZero => match other with | .scal s => decide (s = 0) | _ => false
+  | .otherEqZero => match other with | .scal s _ => decide (s = 0) | _ => false
   | .selfIsLinear => self.lin
+  | .otherIsReal => match other with | .scal _ re => re | _ => false
+  | .and g h => g.eval self other && h.eval self other
 
 def ctorSum (fn : Bool) (a b : Impl K) : Option (Impl K) :=
   if a.dom = b.dom ∧ a.ran = b.ran then some (.sum fn a b) else none
@@ -156,24 +160,24 @@ def construct (env : Nat → Vec K → Vec K) (c : Cls) (args : Args) (self : Im
   | .FunctionalSum, .selfOther, .op b => if self.isFn ∧ b.isFn then ctorSum true self b else none
   | .OperatorVectorSum, .selfOther, .vec v =>
       if self.ran = .vec v.n then some (.vecSum self v.val) else none
-  | .OperatorVectorSum, .selfOtherTimesOne, .scal s =>
+  | .OperatorVectorSum, .selfOtherTimesOne, .scal s _ =>
       match self.ran with
       | .vec _ => some (.vecSum self (fun _ => s * 1))
       | .fld => none
-  | .FunctionalScalarSum, .selfOther, .scal s =>
+  | .FunctionalScalarSum, .selfOther, .scal s _ =>
       if self.isFn ∧ self.ran = .fld then some (.scalSum self s) else none
   | .OperatorComp, .selfOther, .op b => ctorComp false self b
   | .OperatorComp, .otherSelf, .op b => ctorComp false b self
   | .FunctionalComp, .selfOther, .op b => if self.isFn then ctorComp true self b else none
-  | .OperatorLeftScalarMult, .selfOther, .scal s => some (mkLScal false self s)
-  | .FunctionalLeftScalarMult, .selfOther, .scal s =>
+  | .OperatorLeftScalarMult, .selfOther, .scal s _ => some (mkLScal false self s)
+  | .FunctionalLeftScalarMult, .selfOther, .scal s _ =>
       if self.isFn then some (mkLScal true self s) else none
-  | .OperatorRightScalarMult, .selfOther, .scal s => some (mkRScal false self s)
-  | .OperatorRightScalarMult, .opScalTimesOther, .scal s =>
+  | .OperatorRightScalarMult, .selfOther, .scal s _ => some (mkRScal false self s)
+  | .OperatorRightScalarMult, .opScalTimesOther, .scal s _ =>
       match rscalParts self with
       | some (a', t) => some (mkRScal false a' (t * s))
       | none => none
-  | .FunctionalRightScalarMult, .selfOther, .scal s =>
+  | .FunctionalRightScalarMult, .selfOther, .scal s _ =>
       if self.isFn then some (mkRScal true self s) else none
   | .OperatorRightVectorMult, .selfOtherCopy, .vec v =>
       if self.dom = .vec v.n then some (.rvec false self v.val) else none
@@ -242,8 +246,8 @@ def pyMul (T : Tables) (env : Nat → Vec K → Vec K) (self : Impl K) (other : 
 
 /-- `(-1) * other` for the three kinds of operand. -/
 def negOneTimes (T : Tables) (env : Nat → Vec K → Vec K) : Operand K → Option (Operand K)
-  | .op b => (dispatchRMul T env b (.scal (-1))).map .op
-  | .scal s => some (.scal (-1 * s))
+  | .op b => (dispatchRMul T env b (.scal (-1) true)).map .op
+  | .scal s re => some (.scal (-1 * s) re)
   | .vec v => some (.vec ⟨v.n, fun j => -1 * v.val j⟩)
 
 def Deleg.eval (T : Tables) (env : Nat → Vec K → Vec K) (self : Impl K) (other : Operand K) :
@@ -251,11 +255,11 @@ def Deleg.eval (T : Tables) (env : Nat → Vec K → Vec K) (self : Impl K) (oth
   | .selfPlusOther => pyAdd T env self other
   | .selfPlusNegOneTimesOther => (negOneTimes T env other).bind (pyAdd T env self)
   | .negOneTimesSelfPlusOther =>
-      (dispatchRMul T env self (.scal (-1))).bind (fun m => pyAdd T env m other)
-  | .negOneTimesSelf => dispatchRMul T env self (.scal (-1))
+      (dispatchRMul T env self (.scal (-1) true)).bind (fun m => pyAdd T env m other)
+  | .negOneTimesSelf => dispatchRMul T env self (.scal (-1) true)
   | .selfTimesRecipOther =>
       match other with
-      | .scal s => if s = 0 then none else dispatchMul T env self (.scal (1 / s))
+      | .scal s re => if s = 0 then none else dispatchMul T env self (.scal (1 / s) re)
       | _ => none
   | .selfMulOther => dispatchMul T env self other
   | .selfRMulOther => dispatchRMul T env self other
@@ -274,7 +278,7 @@ def subOf (T : Tables) (self : Impl K) : Deleg :=
 /-- The dispatch of a whole expression through the extracted tables. -/
 def buildT (T : Tables) (env : Nat → Vec K → Vec K) : Expr K → Option (Impl K)
   | .leaf i => some (.leaf i)
-  | .neg a => (buildT T env a).bind fun a' => T.operatorNeg.eval T env a' (.scal 0)
+  | .neg a => (buildT T env a).bind fun a' => T.operatorNeg.eval T env a' (.scal 0 true)
   | .pow a n => (buildT T env a).bind fun a' => if T.powIsCompLoop then opPow a' n else none
   | .bin o a b =>
     match buildT T env a, buildT T env b with
@@ -286,17 +290,17 @@ def buildT (T : Tables) (env : Nat → Vec K → Vec K) : Expr K → Option (Imp
       | .pprod => mkPProd a' b'
       | .quot => mkQuot a' b'
     | _, _ => none
-  | .sc o a s =>
+  | .sc o a s re =>
     match buildT T env a with
     | some a' =>
       match o with
-      | .lmul => dispatchRMul T env a' (.scal s)
-      | .rmul => dispatchMul T env a' (.scal s)
-      | .div => T.operatorTruediv.eval T env a' (.scal s)
-      | .add => pyAdd T env a' (.scal s)
-      | .radd => reflectedAdd T env a' (.scal s)
-      | .sub => (subOf T a').eval T env a' (.scal s)
-      | .rsub => T.operatorRSub.eval T env a' (.scal s)
+      | .lmul => dispatchRMul T env a' (.scal s re)
+      | .rmul => dispatchMul T env a' (.scal s re)
+      | .div => T.operatorTruediv.eval T env a' (.scal s re)
+      | .add => pyAdd T env a' (.scal s re)
+      | .radd => reflectedAdd T env a' (.scal s re)
+      | .sub => (subOf T a').eval T env a' (.scal s re)
+      | .rsub => T.operatorRSub.eval T env a' (.scal s re)
     | none => none
   | .vc o a v =>
     match buildT T env a with
